@@ -61,7 +61,7 @@ def pick_fast_motif(prng, shape_focus=False):
     if k == "lib_clique2":
         return {"kind": "lib_clique", "size": 2}
     if k == "lib_cycle":
-        return {"kind": "lib_cycle", "size": prng.randrange(3, 7)}
+        return {"kind": "lib_cycle", "size": prng.randrange(2, 7)}      # size 2: cycle_motif returns a double edge
     if k == "lib_diamond":
         return {"kind": "lib_diamond", "size": 4}
     if k == "single":
@@ -92,6 +92,15 @@ CUSTOM_CATALOGUE = [
     {"tag": "pentagon", "orbits": [2, 2, 1], "edges": [[0, 1], [1, 2], [2, 3], [3, 4], [0, 4], [1, 3]], "ret": "tuple"},
     {"tag": "star4", "orbits": [1, 3], "edges": [[0, 1], [0, 2], [0, 3]], "ret": "list"},
     {"tag": "square", "orbits": [4], "edges": [[0, 1], [1, 2], [2, 3], [0, 3]], "ret": "list"},
+    # motifs whose edges are NOT a set of distinct vertex pairs (multi-edges / self-loops inside a motif are legal
+    # callback outputs: the library's own cycle_motif([a, b]) returns the double edge)
+    {"tag": "double_edge", "orbits": [2], "edges": [[0, 1], [0, 1]], "ret": "list"},
+    {"tag": "double_edge_11", "orbits": [1, 1], "edges": [[0, 1], [1, 0]], "ret": "tuple"},
+    {"tag": "loop_and_edge", "orbits": [2], "edges": [[0, 0], [0, 1]], "ret": "tuple"},
+    {"tag": "triple_on_two", "orbits": [2], "edges": [[0, 1], [1, 0], [0, 1]], "ret": "list"},
+    {"tag": "loop_only", "orbits": [1], "edges": [[0, 0]], "ret": "list"},
+    {"tag": "two_loops", "orbits": [1], "edges": [[0, 0], [0, 0]], "ret": "tuple"},
+    {"tag": "tri_with_double", "orbits": [3], "edges": [[0, 1], [0, 1], [1, 2], [0, 2]], "ret": "tuple"},
 ]
 
 
@@ -136,7 +145,7 @@ def gen_scenario(prng, tier, index, focus):
         for j in range(nm):
             spec = dict(prng.choice(CUSTOM_CATALOGUE))
             if focus == "C02" and prng.random() < 0.5:
-                spec = dict(prng.choice(CUSTOM_CATALOGUE[:6]))
+                spec = dict(prng.choice(CUSTOM_CATALOGUE[:6] + CUSTOM_CATALOGUE[-7:]))
             if prng.random() < 0.06:
                 # a motif with one unusually large orbit (optionally a small hub orbit in front of or behind it)
                 k = big_size(prng)
